@@ -209,6 +209,10 @@ func Parse(input string) (Version, error) {
 }
 
 func parseInto(result *Version, input string) error {
+	/* The target may hold an earlier value (UnmarshalControl into a reused
+	 * variable): start from scratch, or its epoch and revision survive. */
+	*result = Version{}
+
 	trimmed := strings.TrimSpace(input)
 	if trimmed == "" {
 		return fmt.Errorf("version string is empty")
